@@ -45,7 +45,7 @@ ExpectedUniverse(tr, i) ==
       \* children handed to the constructor decide the scoping; strategies attached
       \* later with parent= only add their own column (a strategy that was given no
       \* child at construction keeps every ticker)
-      ctor == {j \in ks : tr.decl[j].how # "parent"}
+      ctor == {j \in ks : tr.decl[j].how \notin {"parent", "late"}}
   IN  IF ctor = {} THEN cols \cup sts ELSE (tks \cap cols) \cup sts
 Universe(tr) ==
   UNION { IF tr.decl[i].kind # "strat" \/ tr.decl[i].path \notin Paths(tr.obs) THEN {}
@@ -60,11 +60,23 @@ IsAncOrSelf(tr, a, i) == a = i \/ (tr.decl[i].par # 0 /\ IsAncOrSelf(tr, a, tr.d
 LastPush(tr, i, pushes, dflt) ==
   LET S == {k \in DOMAIN pushes : IsAncOrSelf(tr, pushes[k].node, i)}
   IN  IF S = {} THEN dflt ELSE pushes[CHOOSE k \in S : \A m \in S : k >= m].value
+\* the same, counting only the pushes made after the first n (those a strategy created
+\* on the live tree was around for)
+LastPushFrom(tr, i, pushes, dflt, n) ==
+  LET S == {k \in DOMAIN pushes : k > n /\ IsAncOrSelf(tr, pushes[k].node, i)}
+  IN  IF S = {} THEN dflt ELSE pushes[CHOOSE k \in S : \A m \in S : k >= m].value
+RECURSIVE UnderLate(_, _)
+UnderLate(tr, i) == tr.decl[i].how = "late" \/ (tr.decl[i].par # 0 /\ UnderLate(tr, tr.decl[i].par))
 Settings(tr) ==
   UNION { IF tr.decl[i].path \notin Paths(tr.obs) THEN {} ELSE
           LET x == ByPath(tr.obs, tr.decl[i].path) IN
             (IF x.intpos = LastPush(tr, i, tr.intpushes, TRUE) THEN {} ELSE {<<"C19.integer_positions", i>>})
-            \cup (IF tr.decl[i].kind # "strat" \/ x.comm = LastPush(tr, i, tr.commpushes, 0) THEN {} ELSE {<<"C19.commissions", i>>})
+            \cup (IF tr.decl[i].kind # "strat" \/ x.comm = LastPush(tr, i, tr.commpushes, 0) THEN {}
+                  \* known finding K16: a strategy attached to a live tree takes the integer-position
+                  \* setting of its parent but not the commission function set earlier
+                  ELSE IF UnderLate(tr, i) /\ x.comm = LastPushFrom(tr, i, tr.commpushes, 0, tr.npre_comm)
+                  THEN {<<"C19.commissions.K16", i>>}
+                  ELSE {<<"C19.commissions", i>>})
         : i \in DOMAIN tr.decl }
 
 Judge(tr) ==
